@@ -13,25 +13,29 @@ CONSTANTS WLS,           \* wavelengths (integers, D = 1)
                          \*      window algorithm of FluxBinner is checked on that lattice; 0: definition only
           AlgVariant,    \* "ok" | "resumestart" | "resumestop" | "resume"
           Export
-VARIABLES phase, rows, out
-vars == <<phase, rows, out>>
+VARIABLES phase, rows, out, nat
+vars == <<phase, rows, out, nat>>
 D == 1
 Primes == <<2, 3, 5, 7, 11, 13>>
 KSeqs == UNION {{SetToSortSeq(S, LAMBDA a, b : a < b) : S \in {T \in SUBSET WLS : Cardinality(T) = n}} : n \in NMin..NMax}
 RowsOf(ks) == {[i \in 1..Len(ks) |-> <<ks[i], Primes[i], Primes[Len(ks) + 1 - i] + 10, wd[i]>>] : wd \in [1..Len(ks) -> Wids]}
 AllRows == {r \in UNION {RowsOf(ks) : ks \in KSeqs} : Loadable(r, NCol)}
 
-Init == phase = "in" /\ rows \in AllRows /\ out = <<>>
+\* the native model of an observation (reading A of the widths; 3 columns: wide enough for reading B too)
+NativeOf(L) == NatFor(L.wn, [i \in 1..Len(L.wn) |-> RMax(L.wnwA[i], L.wnwB[i])], H)
+
+Init == phase = "in" /\ rows \in AllRows /\ out = <<>> /\ nat = <<>>
 LoadRows == /\ phase = "in"
             /\ out' = Load(rows, D, NCol, "ok")
+            /\ nat' = NativeOf(Load(rows, D, NCol, "ok"))
             /\ phase' = "done" /\ UNCHANGED rows
 Next == LoadRows
 Spec == Init /\ [][Next]_vars
 
 Done == phase = "done"
 Perms == {[i \in 1..Len(rows) |-> p[i]] : p \in Permutations(1..Len(rows))}
-\* the native model of this observation (reading A of the widths; 3 columns: wide enough for reading B too)
-NatM  == NatFor(out.wn, [i \in 1..Len(out.wn) |-> RMax(out.wnwA[i], out.wnwB[i])], H)
+\* (nat is a state variable only so that TLC holds it as an evaluated value)
+NatM == nat
 F    == NatVals(Len(NatM))
 ModA(L) == ModelOnObs(L.wn, L.wnwA, NatM, F, 1)
 ModB(L) == ModelOnObs(L.wn, L.wnwB, NatM, F, 1)
